@@ -23,6 +23,7 @@ ASSUMPTIONS = ["vf/ref/merkle_ref.py (recursive merkle, validated on mainnet blo
                "vf/ref/tx_ref.py parser"]
 OBLIGATIONS = {
     "concurrent_calls": "interleavings of two concurrent calls (single-case checks in two threads, cold and after warm-up calls)",
+    "block_over_1mb": "a block larger than 1 000 000 bytes (and one larger than 4 000 000) round-tripped",
     "history_sequences": "operation sequences (non-initial process states) explored",
     "merkle_odd_above_leaves": "a list length whose tree has an odd level above the leaves (5, 6, 9..)",
     "height_0": "height 0", "height_le_16": "a height 1..16 (OP_n form)", "height_sign_pad": "a height whose top bit needs a sign byte (128, 32768..)",
@@ -285,6 +286,15 @@ def run_job(job):
                     if n == 50:
                         acc.ob("block_50_txs")
                     acc.check("block", {"seed": seed, "header": hd, "as": al[off:off + n]}, chk_block)
+        # a block of more than 1 000 000 bytes (legacy size limit) made of 5 transactions with large witness items, and one of
+        # more than 4 000 000 bytes
+        base = {"segwit": True, "n_in": 1, "n_out": 1, "seq0": "fffffffe", "seqrest": "ffffffff", "ss0": 1, "ssrest": 1, "spk0": 25, "spkrest": 22,
+                "wit0": [72, 33], "witrest": [1], "version": 2, "locktime": 7, "trailing": 0}
+        for sizes in ([300_000] * 4, [1_000_001], [2_000_000, 2_000_001]):
+            acc.evaluations += 1
+            acc.nontrivial += 1
+            acc.ob("block_over_1mb")
+            acc.check("block", {"seed": seed, "header": headers[0], "as": [dict(base, segwit=False, wit0=[])] + [dict(base, wit0=[n, 33]) for n in sizes]}, chk_block)
         acc.sample({"block_tx_counts": [1, 2, 3, 5, 50], "headers": len(headers)})
     return acc.result()
 
